@@ -238,6 +238,24 @@ func checkC11(c *CaseC11, fl *Fails) {
 	if fl.Has() {
 		return
 	}
+	// the returned groups belong to the caller: a later conversion must not change them
+	{
+		snap := fmt.Sprint(len(groups))
+		for _, g := range groups {
+			snap += fmt.Sprint(g.QuadkeyZoom(), g.VerticalZoom(), g.InnerIDList())
+		}
+		shifted := ref.Shift(c.Boxes[0], 1, 1, 1)
+		if shifted.Valid() {
+			_, _ = transform.ConvertExtendedSpatialIDsToQuadkeysAndVerticalIDs([]string{shifted.Ext()}, c.OutH, c.OutV, 0, 0)
+		}
+		after := fmt.Sprint(len(groups))
+		for _, g := range groups {
+			after += fmt.Sprint(g.QuadkeyZoom(), g.VerticalZoom(), g.InnerIDList())
+		}
+		if after != snap {
+			fl.Add("result-retention", "ids %v -> %d/%d: the returned groups changed after a later conversion of another ID", ids, c.OutH, c.OutV)
+		}
+	}
 	// back to IDs
 	var outBoxes []ref.Box
 	for _, b := range want {
